@@ -230,17 +230,62 @@ def check_glide(res, facts, prop):
                     exp = {'t=0': S.term.scale(0) + Poly.const(Fr(math.pi)).scale(Fr(1, 4)) if False else None}
                     want = expected_tan_arg(pname, S.term, tterm, max_fc)
                     ok = len(tans) == 1 and want is not None and poly_close(tans[0][1], want, o.ctx)
+                    if len(tans) == 1:
+                        # the shape the response lemma is about: a1 = (W-1)/(1+W), b0 = b1 = W/(1+W), W = tan(pi*f0/fs)
+                        Wt = Poly.atom(tans[0])
+                        na1, d1 = clear_inv(co.get('a1').term)
+                        nb0, d0 = clear_inv(co.get('b0').term)
+                        nb1, d2 = clear_inv(co.get('b1').term)
+                        shape = na1 == Wt - 1 and nb0 == Wt and nb1 == Wt and d1 == Wt + 1 and d0 == Wt + 1 and d2 == Wt + 1
+                        res.ob('R-RESPONSE', inst + '|single-pole shape a1=(W-1)/(1+W), b0=b1=W/(1+W)', shape,
+                               'a1 = (%r)/(%r), b0 = (%r)/(%r)' % (na1, d1, nb0, d0), where, key='R-RESPONSE:shape:' + pname)
                     res.ob('R-DEADBAND', inst + '|cutoff = clamp(1/t, 0.1 Hz, max_fc)', ok,
                            'design argument(s) %s; expected tan(pi*f0/fs) with pi*f0/fs = %r' % ([repr(a[1]) for a in tans], want), where, key='R-DEADBAND:cutoff:' + pname)
+    if prop == 'C14':
+        response_lemma(res)
     res.floor('set_time_outcomes', n, 8)
     res.floor('set_time_honoured', n_honoured, 4)
     if prop == 'C13':
         check_process(res, facts, gl, tmpl, ctx0)
 
 
-def facts_f32(x):
-    import struct
-    return Fr(struct.unpack('<f', struct.pack('<f', x))[0])
+def response_lemma(res):
+    """Lemma about the decided formulas (interval arithmetic over n = t*fs, no execution of the crate):
+    with b0 = b1 = W/(1+W), -a1 = p = (1-W)/(1+W), W = tan(pi/n) (cutoff 1/t), the unit step response of
+    y = b0 x + b1 x1 - a1 y1 from rest has error e[k] = p^k (1+p)/2, so coverage(k) = 1 - p^k (1+p)/2.
+    Claims of C14 for at least 100 samples per t: coverage(t) >= 99.5 %, 40 % <= coverage(t/10) <= 55 % (sample index
+    taken with +-1 slack); fastest setting (W = 1 up to 1e-6): settled within 8 samples."""
+    lo_n, hi_n = 100.0, 10 * 192000.0
+    ratio = 1.0005
+    worst_full, lo_tenth, hi_tenth = 1.0, 1.0, 0.0
+    n0 = lo_n
+    cells = 0
+    pad = 1e-12
+    while n0 < hi_n:
+        n1 = min(n0 * ratio, hi_n)
+        W_hi = math.tan(math.pi / n0) * (1 + 1e-9) + pad      # W decreases with n
+        W_lo = math.tan(math.pi / n1) * (1 - 1e-9) - pad
+        p_lo = (1 - W_hi) / (1 + W_hi)
+        p_hi = (1 - W_lo) / (1 + W_lo)
+        if not (0 < p_lo <= p_hi < 1):
+            res.ob('R-RESPONSE', 'lemma: pole in (0,1) for n in [%g,%g]' % (n0, n1), False, 'p in [%r,%r]' % (p_lo, p_hi))
+            return
+
+        def err_bounds(k_lo, k_hi):
+            return p_lo ** k_hi * (1 + p_lo) / 2, p_hi ** k_lo * (1 + p_hi) / 2
+        e_lo, e_hi = err_bounds(n0 - 1, n1 + 1)
+        worst_full = min(worst_full, 1 - e_hi)
+        e_lo, e_hi = err_bounds(math.floor(n0 / 10) - 1, math.ceil(n1 / 10) + 1)
+        lo_tenth = min(lo_tenth, 1 - e_hi)
+        hi_tenth = max(hi_tenth, 1 - e_lo)
+        n0 = n1
+        cells += 1
+    res.ob('R-RESPONSE', 'lemma: >= 99.5 %% of the step after t (n = t*fs in [100, 1.92e6], %d cells)' % cells, worst_full >= 0.995, 'worst coverage %.5f' % worst_full, key='R-RESPONSE:full')
+    res.ob('R-RESPONSE', 'lemma: 40 %%..55 %% of the step after t/10', lo_tenth >= 0.40 and hi_tenth <= 0.55, 'coverage in [%.4f, %.4f]' % (lo_tenth, hi_tenth), key='R-RESPONSE:tenth')
+    # fastest setting: |p| <= 2e-6 (W within 1e-6 of 1): e[k] = p^k (1+p)/2 is below f32 resolution from k = 2 on
+    p = 2e-6
+    res.ob('R-RESPONSE', 'lemma: fastest setting settles within 8 samples', p ** 2 * (1 + p) / 2 < 1e-7, 'error after 2 samples <= %.3g' % (p ** 2 * (1 + p) / 2), key='R-RESPONSE:fastest')
+    res.extra['response_lemma'] = {'cells': cells, 'min_coverage_at_t': worst_full, 'coverage_at_t_over_10': [lo_tenth, hi_tenth]}
 
 
 def all_atoms_of(co):
